@@ -33,6 +33,7 @@ struct event { int tid; unsigned int group; int kind; };
 
 static struct event *events;
 static int nevents;			/* atomic */
+static int terse;
 static int nthreads;			/* atomic */
 static unsigned int range_first[MAXTHREADS], range_last[MAXTHREADS];
 static unsigned long delay_seed;
@@ -129,6 +130,7 @@ int main(int argc, char **argv)
 		fprintf(stderr, "usage: drv_rwbmap image seed maxdelay n...\n");
 		return 2;
 	}
+	terse = getenv("RWBMAP_TERSE") != NULL;	/* huge filesystems: digests only */
 	delay_seed = strtoul(argv[2], NULL, 0);
 	max_delay = (unsigned int) strtoul(argv[3], NULL, 0);
 	events = calloc(MAXEVENTS, sizeof(*events));
@@ -196,7 +198,8 @@ int main(int argc, char **argv)
 			unsigned int cpg = fs->super->s_clusters_per_group;
 			unsigned int ipg = fs->super->s_inodes_per_group;
 
-			printf(" bg=");
+			if (!terse)
+				printf(" bg=");
 			for (g = 0; g < fs->group_desc_count; g++) {
 				unsigned long long h;
 				errcode_t r2;
@@ -210,10 +213,12 @@ int main(int argc, char **argv)
 				}
 				h = fnv(FNV0, buf, cpg / 8);
 				bd = fnv(bd, &h, sizeof(h));
-				printf("%s%08x", g ? "," : "", (unsigned int) (h ^ (h >> 32)));
+				if (!terse)
+					printf("%s%08x", g ? "," : "", (unsigned int) (h ^ (h >> 32)));
 				blk_itr += cpg;
 			}
-			printf(" ig=");
+			if (!terse)
+				printf(" ig=");
 			for (g = 0; g < fs->group_desc_count; g++) {
 				unsigned long long h;
 				errcode_t r2;
@@ -227,7 +232,8 @@ int main(int argc, char **argv)
 				}
 				h = fnv(FNV0, buf, ipg / 8);
 				id = fnv(id, &h, sizeof(h));
-				printf("%s%08x", g ? "," : "", (unsigned int) (h ^ (h >> 32)));
+				if (!terse)
+					printf("%s%08x", g ? "," : "", (unsigned int) (h ^ (h >> 32)));
 				ino_itr += ipg;
 			}
 			printf(" bdig=%016llx idig=%016llx", bd, id);
